@@ -75,7 +75,13 @@ def use_tree():
             raise HarnessError("pyrtcm imported before use_tree()")
     import logging
 
-    import pyrtcm  # noqa: F401
+    from . import sched
+
+    sched.install_lock_seam()  # module-level locks of the tree under test go through the scheduler's lock seam
+    try:
+        import pyrtcm  # noqa: F401
+    finally:
+        sched.remove_lock_seam()
 
     # pyrtcm logs handled errors; keep them off stderr (behaviour unchanged)
     lg = logging.getLogger("pyrtcm")
